@@ -512,9 +512,11 @@ var (
 	privateV4 = []string{"10.0.0.1", "10.255.255.255", "192.168.1.1", "172.16.0.1", "172.31.255.255", "127.0.0.1", "169.254.10.20", "100.64.0.1", "198.18.0.1", "198.19.255.255", "192.0.2.1", "224.0.0.1", "255.255.255.255", "0.1.2.3"}
 	publicV6  = []string{"2606:4700:4700::1111", "2a00:1450:4001:81b::200e", "2400:cb00:2048:1::c629:d7a2", "2001:4860:4860::8888", "2003::1", "2001:200::1", "64:ff9b::808:808", "2620:fe::fe"}
 	privateV6 = []string{"::1", "fc00::1", "fd12:3456:789a:1::1", "fe80::1", "febf::1", "2001:db8::1", "2001::1", "2001:2::5", "2002:c000:204::1", "ff02::1", "100::1"}
-	mappedV6  = []string{"::ffff:10.0.0.1", "::ffff:8.8.8.8", "::ffff:808:808", "0:0:0:0:0:ffff:192.168.0.1", "::ffff:127.0.0.1"}
-	unspec    = []string{"0.0.0.0", "::", "::ffff:0.0.0.0", "0:0:0:0:0:0:0:0", "::0", "::ffff:0:0"}
-	invalid   = []string{"", "unknown", "_hidden", "1.2.3", "1.2.3.4.5", "256.1.1.1", "01.2.3.4", "1.2.3.04", "1..2.3", ".1.2.3", "1.2.3.", ":::", "1:2:3:4:5:6:7:8:9",
+	// members of the families the Trust*/Exclude* options switch on and off
+	optFamilies = []string{"127.0.0.1", "127.255.255.254", "::1", "169.254.0.1", "169.254.255.255", "fe80::1", "fe80::abcd:1", "10.0.0.1", "192.168.0.1", "fc00::1", "2001:db8::2"}
+	mappedV6    = []string{"::ffff:10.0.0.1", "::ffff:8.8.8.8", "::ffff:808:808", "0:0:0:0:0:ffff:192.168.0.1", "::ffff:127.0.0.1"}
+	unspec      = []string{"0.0.0.0", "::", "::ffff:0.0.0.0", "0:0:0:0:0:0:0:0", "::0", "::ffff:0:0"}
+	invalid     = []string{"", "unknown", "_hidden", "1.2.3", "1.2.3.4.5", "256.1.1.1", "01.2.3.4", "1.2.3.04", "1..2.3", ".1.2.3", "1.2.3.", ":::", "1:2:3:4:5:6:7:8:9",
 		"12345::", "g::1", "1::2::3", "1:2:3:4:5:6:7::", "1:2:3:4:5:6:7:8::", "::1:2:3:4:5:6:7:8", "::1.2.3.4", "1:2:3:4:5:6:1.2.3.4", "1:2:3:4:5:6:7:1.2.3.4", "1:2:3:4:5:1.2.3.4",
 		"::ffff:1.2.3", "::ffff:1.2.3.4.5", "1:", ":1", "::1:", "fe80::1%", "%eth0", "fe80::1%a%b", "1.2.3.4%eth0", "%", "[", "]", "[]", "[]:", "[::1", "::1]", "[[::1]]", "[::1]]:80",
 		"[::1]:80:90", "[::1]x:80", "1.2.3.4:80:90", "host.example.com", "localhost:80", "0x7f.1", "1.2.3.4/24", "10.0.0.1 10.0.0.2", "\xff\xfe", "1.1.1.\xc2\xa01", "FFFF:ffff:FfFf::AbCd"}
@@ -524,8 +526,10 @@ var (
 func (g *gen) baseAddr() string {
 	r := g.rnd
 	switch p := r.Intn(100); {
-	case p < 18:
+	case p < 14:
 		return hx.Pick(r, publicV4)
+	case p < 24:
+		return hx.Pick(r, optFamilies)
 	case p < 36:
 		return hx.Pick(r, privateV4)
 	case p < 46:
@@ -904,7 +908,8 @@ func main() {
 	out := args["out"]
 	tier := args["tier"]
 	shards := hx.Atoi(args["shards"], 8)
-	rnd := hx.NewRand(hx.Seed())
+	// hx.NewRand(s) and hx.NewRand(s+1) produce the same stream shifted by one draw; mix the seed first
+	rnd := hx.NewRand(hx.NewRand(hx.Seed()).U64())
 	repo := os.Getenv("VERIF_REPO")
 	if repo == "" {
 		repo = "/repo"
@@ -1039,6 +1044,45 @@ func main() {
 		addGroup(f.rq, f.d, []atk{{h, []string{"7.7.7.7"}, &t, "fixed"}}, "fixed")
 	}
 
+	// exhaustive in the option lists: every list of up to 2 (thorough: 3) Trust*/Exclude* options
+	// x both non-private strategies x headers that put a member of each family in the deciding position
+	famHeaders := [][]string{
+		{"8.8.8.8, 127.0.0.1, 169.254.0.1, 10.0.0.1"}, {"8.8.8.8, 10.0.0.1, 127.0.0.1, 169.254.0.1"},
+		{"8.8.8.8, 169.254.0.1, 10.0.0.1, 127.0.0.1"}, {"fe80::1, ::1", "fc00::1, 9.9.9.9"}, {"::1, fc00::1, fe80::1"},
+	}
+	maxOpts := 2
+	if tier == "thorough" {
+		maxOpts = 3
+	}
+	var optLists [][]optFlag
+	var recOpts func(cur []optFlag)
+	recOpts = func(cur []optFlag) {
+		optLists = append(optLists, append([]optFlag(nil), cur...))
+		if len(cur) == maxOpts {
+			return
+		}
+		for k := 0; k < 3; k++ {
+			for _, on := range []bool{true, false} {
+				recOpts(append(cur, optFlag{k, on}))
+			}
+		}
+	}
+	recOpts(nil)
+	for _, ol := range optLists {
+		for _, hs := range famHeaders {
+			rev := make([]string, len(hs))
+			for i, l := range hs {
+				parts := strings.Split(l, ", ")
+				for a, b := 0, len(parts)-1; a < b; a, b = a+1, b-1 {
+					parts[a], parts[b] = parts[b], parts[a]
+				}
+				rev[len(hs)-1-i] = strings.Join(parts, ", ")
+			}
+			addGroup(reqDesc{xff: hs}, &rdesc{kind: "rnp", opts: ol}, nil, "options-exhaustive")
+			addGroup(reqDesc{xff: rev}, &rdesc{kind: "leftmost", n: 4, opts: ol}, nil, "options-exhaustive")
+		}
+	}
+
 	nbase, natk, sysPct := 1500, 2, 6
 	if tier == "thorough" {
 		nbase, natk, sysPct = 14000, 3, 5
@@ -1107,7 +1151,7 @@ func main() {
 	st.Evaluations = observations
 	st.DistinctNontrivial = nontrivial
 	st.Exhaustive = false
-	st.Extra = map[string]any{"case_terms": cs.Len(), "note": "evaluations = runs of the implementation compared with model and spec (one per base request, one per attack, one per ParseIPAddr call); a case term groups a base request with its attacks"}
+	st.Extra = map[string]any{"case_terms": cs.Len(), "exhaustive_scopes": []string{fmt.Sprintf("all Trust*/Exclude* option lists of length <= %d x {rightmost-non-private, leftmost-non-private} x %d family headers", maxOpts, len(famHeaders))}, "note": "evaluations = runs of the implementation compared with model and spec (one per base request, one per attack, one per ParseIPAddr call); a case term groups a base request with its attacks"}
 	hx.Fatal(cs.Write(out, shards))
 	hx.Fatal(st.Write(out))
 	fmt.Printf("c18: %d observations in %d case terms written to %s\n", observations, cs.Len(), out)
